@@ -154,9 +154,13 @@ Qed.
 Lemma find_rows_has l n d : find_rows l n = Some d -> has_name l n = true.
 Proof. intro H. apply find_rows_some in H as (A & _ & B). apply has_name_in. rewrite <- B. apply in_map. exact A. Qed.
 
-(* ---------- sizes: the index stores the size a replay of the record would store *)
+(* ---------- sizes: the index stores the size a replay of the record would store.
+   A row either carries the size record STFS.UncompressedSize, which then decodes to the stored size, or it has none:
+   rows written by STFS without the record are empty; rows indexed from a foreign archive have none and keep the size of
+   their tape header; a later content-less record (metadata update, move) adds the record from that size ([keep_size]),
+   which decodes back to it below the 40 digits the encoder writes. *)
 Definition size_ok (r : row) : Prop :=
-  match pax_get K_usize (r_pax r) with Some v => undecimal v = Some (r_size r) | None => r_size r = 0 end.
+  match pax_get K_usize (r_pax r) with Some v => undecimal v = Some (r_size r) | None => r_size r < 10 ^ 40 end.
 Definition sizes_ok (l : list row) : Prop := Forall size_ok l.
 
 (* a header whose replayed size is determined: it carries the size record, or it is empty *)
@@ -165,15 +169,22 @@ Definition hsize (h : hdr) : option N :=
 Lemma usz_hsize h : usz h = hsize h.
 Proof. unfold usz, hsize. destruct (pax_get K_usize (h_pax h)) as [v|]; [|reflexivity]. destruct (undecimal v); reflexivity. Qed.
 
-Lemma size_ok_row_of_hdr a b c d h sz nm : hsize h = Some sz ->
-  (pax_get K_usize (h_pax h) = None -> h_size h = 0) ->
+Lemma size_ok_row_of_hdr_lt a b c d h sz nm : hsize h = Some sz ->
+  (pax_get K_usize (h_pax h) = None -> h_size h < 10 ^ 40) ->
   size_ok (row_of_hdr a b c d (with_size_name h sz nm)).
 Proof.
   intros H1 H2. unfold size_ok.
   change (r_pax (row_of_hdr a b c d (with_size_name h sz nm))) with (h_pax h).
   change (r_size (row_of_hdr a b c d (with_size_name h sz nm))) with sz.
   unfold hsize in H1. destruct (pax_get K_usize (h_pax h)) as [v|]; [exact H1|].
-  specialize (H2 eq_refl). congruence.
+  specialize (H2 eq_refl). inversion H1; subst sz. exact H2.
+Qed.
+
+Lemma size_ok_row_of_hdr a b c d h sz nm : hsize h = Some sz ->
+  (pax_get K_usize (h_pax h) = None -> h_size h = 0) ->
+  size_ok (row_of_hdr a b c d (with_size_name h sz nm)).
+Proof.
+  intros H1 H2. apply size_ok_row_of_hdr_lt; [exact H1|]. intro K. rewrite (H2 K). reflexivity.
 Qed.
 
 Lemma size_ok_set_lk r a b d : size_ok r -> size_ok (set_lk r a b d).
